@@ -199,6 +199,7 @@ func checkC20(c *Ctx) {
 	c20GuardedValue(c, guards)
 	c20LongLivedPlain(c, accs)
 	c20WriterJoined(c)
+	timerCallbacksDoNotWrite(c, "R-timer-writes")
 	c20PackageState(c)
 	c20FanoutWrite(c)
 	c20ClosureState(c)
